@@ -91,6 +91,7 @@ type c02Hist struct {
 	r        *Run
 	emit     bool
 	failed   map[string]bool
+	overlapSeen bool // intersecting stored merged ranges were seen in this history
 	poison   bool // set by c02Observe when a getter panicked
 	dead     bool // a panic happened: a mutex may be left locked, the rest of the history is skipped
 }
@@ -754,7 +755,13 @@ func c02CanonXML(name string, data []byte) string {
 				if a.Name.Space == "xmlns" || a.Name.Local == "xmlns" {
 					continue
 				}
-				as = append(as, a.Name.Space+"|"+a.Name.Local+"="+a.Value)
+				v := a.Value
+				if v == "true" { // xsd:boolean has two spellings; a part that was never decoded keeps its own
+					v = "1"
+				} else if v == "false" {
+					v = "0"
+				}
+				as = append(as, a.Name.Space+"|"+a.Name.Local+"="+v)
 				if a.Name.Local != "r" {
 					onlyR = false
 				}
@@ -799,6 +806,33 @@ func c02CanonXML(name string, data []byte) string {
 				for _, a := range as {
 					if strings.HasPrefix(a, "|s=") {
 						rowStyle = a[3:]
+					}
+				}
+			}
+			if ws && t.Name.Local == "c" {
+				// the style a cell resolves to (prepareCellStyle: own, else row, else column): a stored 0 / absent
+				// style reads as the inherited one through GetCellStyle
+				ref, own, rest := "", "", []string{}
+				for _, a := range as {
+					switch {
+					case strings.HasPrefix(a, "|r="):
+						ref = a[3:]
+					case strings.HasPrefix(a, "|s="):
+						own = a[3:]
+					default:
+						rest = append(rest, a)
+					}
+				}
+				if own == "" || own == "0" {
+					col, _, _ := xl.CellNameToCoordinates(ref)
+					if rowStyle != "" && rowStyle != "0" {
+						own = rowStyle
+					} else if cs := colStyle[col]; cs != "" && cs != "0" {
+						own = cs
+					}
+					if own != "" && own != "0" {
+						as = append([]string{"|r=" + ref, "|s=" + own}, rest...)
+						sort.Strings(as)
 					}
 				}
 			}
@@ -885,8 +919,54 @@ func c02Parts(pkg []byte) []string {
 
 func (h *c02Hist) replay() string { return strings.Join(h.lines, "\n") }
 
-// overlappingMerges: the history merges two different, intersecting rectangles on one sheet.
+var c02MergeList = regexp.MustCompile(` M=(\S*) dense=`)
+
+// noteOverlaps looks at the stored (not normalised) merge lists of both files through the shared
+// dump hook and remembers whether two different ranges of one sheet intersect: such ranges also
+// arise without two MergeCell calls (DuplicateRow, InsertRows, fixtures that already contain them).
+func (h *c02Hist) noteOverlaps() {
+	if h.overlapSeen || h.emit {
+		return
+	}
+	for _, t := range []*c02Twin{&h.a, &h.b} {
+		if t.f == nil {
+			continue
+		}
+		for _, name := range h.names {
+			m := c02MergeList.FindStringSubmatch(func() (s string) {
+				defer func() { recover() }()
+				return xl.VerifDumpSheet(t.f, name)
+			}())
+			if m == nil || m[1] == "" {
+				continue
+			}
+			var rs [][4]int
+			for _, ref := range strings.Split(m[1], ",") {
+				p := strings.Split(ref, ":")
+				c1, r1, e1 := xl.CellNameToCoordinates(p[0])
+				c2, r2, e2 := xl.CellNameToCoordinates(p[len(p)-1])
+				if e1 != nil || e2 != nil {
+					continue
+				}
+				q := [4]int{min(c1, c2), min(r1, r2), max(c1, c2), max(r1, r2)}
+				for _, o := range rs {
+					if o != q && o[0] <= q[2] && q[0] <= o[2] && o[1] <= q[3] && q[1] <= o[3] {
+						h.overlapSeen = true
+						return
+					}
+				}
+				rs = append(rs, q)
+			}
+		}
+	}
+}
+
+// overlappingMerges: the history merges two different, intersecting rectangles on one sheet, or
+// intersecting stored ranges were seen (noteOverlaps).
 func (h *c02Hist) overlappingMerges() bool {
+	if h.overlapSeen {
+		return true
+	}
 	type rect struct{ sh, c1, r1, c2, r2 int }
 	var rs []rect
 	for _, l := range h.lines {
@@ -913,7 +993,7 @@ func (h *c02Hist) fail(sig, what string, line int) {
 		}
 	}
 	if !strings.HasPrefix(sig, "panic:") && !strings.HasPrefix(sig, "save-twice") && h.overlappingMerges() {
-		for _, a := range []string{":merges:", ":cell:", ":rows:", ":type:", ":formula:", ":style:", ":result:", ":part:worksheet:"} {
+		for _, a := range []string{":merges:", ":cell:", ":rows:", ":type:", ":formula:", ":style:", ":result:", ":link:", ":part:worksheet:"} {
 			if strings.Contains(sig+":", a) {
 				sig = "twin:overlapping-merges-normalised-at-save"
 				break
@@ -1101,6 +1181,7 @@ func (h *c02Hist) execOne(w []string, twin bool) string {
 			for i := range h.kinds {
 				h.kinds[i] = "fixture"
 			}
+			h.noteOverlaps()
 			return "ok"
 		}
 		h.a.f = c02New()
@@ -1119,16 +1200,28 @@ func (h *c02Hist) execOne(w []string, twin bool) string {
 	res := h.apply(&h.a, w)
 	if twin && h.b.f != nil && w[0] != "dump" && w[0] != "pkg" {
 		rb := h.apply(&h.b, w)
-		if rb != res {
+		ra := res
+		if h.emit && (w[0] == "get" || w[0] == "iget") && (strings.Contains(ra, ":s:3f") || strings.Contains(rb, ":s:3f")) {
+			// `?<index>`: the (frozen) hook could not resolve a shared string because an empty in-memory table
+			// sits next to the spilled one (see coreOp/reopen; the never-saved twin keeps the spilled table).
+			// The public getters read the temp file and are compared in the wide and spill histories.
+			h.r.Stat("info:hook-unresolved-shared-string")
+			rb = ra
+		}
+		if rb != ra {
 			sig := "twin:result:" + w[0]
-			if res == "PANIC" || rb == "PANIC" {
+			if ra == "PANIC" || rb == "PANIC" {
 				sig = "panic:" + w[0]
 			}
-			h.fail(sig, fmt.Sprintf("`%s` answers %s on the saved file and %s on the never-saved twin", strings.Join(w, " "), res, rb), 0)
+			h.fail(sig, fmt.Sprintf("`%s` answers %s on the saved file and %s on the never-saved twin", strings.Join(w, " "), ra, rb), 0)
 		}
 	}
 	if res == "PANIC" {
 		h.fail("panic:"+w[0], "panic in `"+strings.Join(w, " ")+"`", 0)
+	}
+	switch w[0] {
+	case "merge", "unmerge", "dupr", "insr", "insc", "delr", "delc", "copy", "reopen":
+		h.noteOverlaps() // (loads the sheets: done for every twin alike)
 	}
 	switch w[0] {
 	case "newsheet", "stream":
@@ -1211,7 +1304,7 @@ func (h *c02Hist) line(l string) int {
 		return 0
 	}
 	if w[0] == "new" || w[0] == "open" {
-		h.dead, h.poison = false, false
+		h.dead, h.poison, h.overlapSeen = false, false, false
 		h.lines = nil
 		h.maxC, h.maxR, h.far = 1, 1, map[[3]int]bool{}
 		h.lastSave, h.saves, h.mutAfter = nil, 0, false
@@ -1366,7 +1459,7 @@ type c02Gen struct {
 	h      *c02Hist
 	nsheet int
 	last   []string
-	strs   map[[3]int]bool // generator's shadow: cells that currently hold a shared string
+	strs   map[[3]int]bool // generator's shadow: cells that currently hold the escape look-alike string
 }
 
 func (g *c02Gen) pos(wide bool) (int, int) {
@@ -1455,7 +1548,7 @@ func (g *c02Gen) coreOp() []string {
 			c, r = []int{16385, 1, 1}[rg.Intn(3)], []int{1, 0, 1048577}[rg.Intn(3)]
 		}
 		l := g.valLine(sh, c, r)
-		if strings.Contains(l, " s ") {
+		if strings.Contains(l, " s "+hx("_x0041_")) {
 			g.strs[[3]int{sh, c, r}] = true
 		} else {
 			delete(g.strs, [3]int{sh, c, r})
@@ -1467,8 +1560,9 @@ func (g *c02Gen) coreOp() []string {
 			f = "-"
 		}
 		if g.h.emit && g.strs[[3]int{sh, c, r}] && f != "-" {
-			// SetCellFormula on a shared-string cell keeps the table *index* as cached value; the
-			// model abstracts the table away, so modelled histories clear such a cell first
+			// SetCellFormula moves a shared string's text into the cell in its stored, escaped form
+			// (`_x005F_x0041_` for the look-alike payload `_x0041_`); the dump hook shows the stored
+			// text of a t="str" cell, the model carries the payload: modelled histories clear such a cell first
 			delete(g.strs, [3]int{sh, c, r})
 			return []string{fmt.Sprintf("val %d %d %d - -", sh, c, r), fmt.Sprintf("fml %d %d %d %s", sh, c, r, f)}
 		}
@@ -1489,7 +1583,16 @@ func (g *c02Gen) coreOp() []string {
 		return g.saveLines()
 	case x < 90:
 		if rg.Chance(45) {
-			return []string{fmt.Sprintf("reopen %d", []int{64, 300, 2000}[rg.Intn(3)])}
+			l := fmt.Sprintf("reopen %d", []int{64, 300, 2000}[rg.Intn(3)])
+			if g.h.emit {
+				// modelled histories: a save right away moves a spilled shared-string table back into File.Pkg.
+				// While it is spilled, SetCellFormula on a string cell instantiates an empty in-memory table
+				// (sharedStringsReader) next to the temp file; the public getters still read the temp file, the
+				// dump hook (frozen) resolves indexes through the in-memory table and would print `?<index>`.
+				// Spilled tables under later calls are covered by the wide and spill histories (public getters).
+				return []string{l, "save 0 0"}
+			}
+			return []string{l}
 		}
 		return []string{"reopen"}
 	case x < 95:
